@@ -91,6 +91,10 @@ class _Conn(object):
         del lst[:]
         return out
 
+    def burst(self, chunks):
+        """segments that arrive back to back; front-ends without a queue between arrival and handling see them one by one"""
+        return self.run_script(list(chunks))
+
     def run_script(self, items):
         """deliver a whole script (byte chunks and exceptions to be raised by the read call).
         Synchronous stream handlers run it inside ONE handle() invocation, as in production."""
@@ -402,6 +406,21 @@ class _AioTransport(object):
 
 
 class _AioStream(_Conn):
+    def burst(self, chunks):
+        """several segments arrive before the handler task gets to run (one event-loop turn)"""
+        if self.closed:
+            return []
+        loop = self.srv.loop
+        with loop:
+            try:
+                for c in chunks:
+                    self.p.data_received(bytes(c))
+                loop.run_until_idle()
+            except BaseException as e:   # noqa
+                self.srv.escaped.append(('aio-tcp.data_received', e))
+        self._after()
+        return self._take(self.tr.writes)
+
     def __init__(self, srv, peer):
         _Conn.__init__(self, srv, peer)
         self.tr = _AioTransport(srv, peer)
